@@ -250,7 +250,8 @@ func c06Trees(maxOps int, lits []int64, name string) *core.Scenario {
 
 // positions: a reduced expression set in every other operand position that admits an expression.
 func c06Positions(lits []int64) *core.Scenario {
-	positions := []string{"EQU_reuse", "DB", "DW", "MOV AX", "MOV EAX", "MOV CL", "[BX+e]", "[EBX+e]", "[e+BX]", "[BX+e-1]", "[BX+SI+e]", "[EBX+ESI+e]", "[EBX+ESI*2+e]", "[BX+e+SI]", "RESB", "EQU", "EQU_chain", "EQU_dollar", "ORG", "ADD CX", "PUSH"}
+	positions := []string{"EQU_reuse", "DB", "DW", "MOV AX", "MOV EAX", "MOV CL", "[BX+e]", "[EBX+e]", "[e+BX]", "[BX+e-1]", "[BX+SI+e]", "[EBX+ESI+e]", "[EBX+ESI*2+e]", "[BX+e+SI]", "RESB", "EQU", "EQU_chain", "EQU_dollar", "ORG", "ADD CX", "PUSH",
+		"IMUL CX", "IMUL ECX", "CMP AL", "SUB EAX", "AND BX", "OR BYTE [BX]", "MOV WORD [SI]", "XOR DWORD [EBX]", "EQU_case_twins"}
 	return &core.Scenario{
 		Name: "positions", Bound: -1,
 		Rule:   "all expressions with <= 1 operator (and a 2-operator sample) over the literal set, placed in every operand position that admits an expression (data, immediates, displacements before/after/around a register term, RESB, EQU bodies, ORG); the encoded value must be the reference value modulo the field width; non-trivial = expression with an operator",
@@ -298,7 +299,7 @@ func c06Positions(lits []int64) *core.Scenario {
 			switch pos {
 			case "DB", "DW":
 				src = sentinelLine(0) + "\t" + pos + " " + e + "\n" + sentinelLine(1)
-			case "MOV AX", "MOV EAX", "MOV CL", "ADD CX":
+			case "MOV AX", "MOV EAX", "MOV CL", "ADD CX", "IMUL CX", "IMUL ECX", "CMP AL", "SUB EAX", "AND BX", "OR BYTE [BX]", "MOV WORD [SI]", "XOR DWORD [EBX]":
 				src = sentinelLine(0) + "\t" + pos + "," + e + "\n" + sentinelLine(1)
 			case "PUSH":
 				src = sentinelLine(0) + "\tPUSH " + e + "\n" + sentinelLine(1)
@@ -328,6 +329,8 @@ func c06Positions(lits []int64) *core.Scenario {
 				src = "\tORG 0x7c00\n\tDB 1,2,3\n" + sentinelLine(2) + "X EQU $+" + ep + "\n\tDB 4\n" + sentinelLine(0) + "\tDD X\n" + sentinelLine(1)
 			case "EQU_reuse": // the name is used as first factor of a product/quotient/remainder and then again
 				src = "X EQU " + e + "\nK EQU 3\n\tDD X*K\n\tDD X/K\n\tDD X%K\n\tDD K*X\n" + sentinelLine(0) + "\tDD X\n" + sentinelLine(1) + "\tDD K\n"
+			case "EQU_case_twins": // names that differ only in case are different names
+				src = "val EQU " + e + "\nVAL EQU 77\nVal EQU 78\n\tDD VAL,Val\n" + sentinelLine(0) + "\tDD val\n" + sentinelLine(1)
 			case "ORG":
 				src = "\tORG " + e + "\nhere:\n" + sentinelLine(0) + "\tDD here\n" + sentinelLine(1)
 			}
@@ -378,7 +381,7 @@ func c06Positions(lits []int64) *core.Scenario {
 							return v
 						}
 						got = rdle(reg)
-					case "EQU", "ORG", "EQU_reuse":
+					case "EQU", "ORG", "EQU_reuse", "EQU_case_twins":
 						if len(reg) != 4 {
 							fail("length", "expected 4 bytes")
 							return v
@@ -413,7 +416,7 @@ func c06Positions(lits []int64) *core.Scenario {
 						for _, o := range in.Ops {
 							if o.Kind == "imm" {
 								got, width, found = o.Imm, o.Size, true
-							} else if o.Kind == "mem" {
+							} else if o.Kind == "mem" && pos != "OR BYTE [BX]" && pos != "MOV WORD [SI]" && pos != "XOR DWORD [EBX]" { // ("op size [mem],e": the value is the immediate)
 								got, width, found = o.Mem.Disp, o.Mem.AddrSize, true
 								if pos == "[BX+e-1]" {
 									want = want - 1
